@@ -451,6 +451,13 @@ func oracleLayout(c *hx.Ctx, kase interface{}, pg Page) {
 		ar := layout.NewAnalyzer().Analyze(cp(), w, h)
 		checkElements(c, "elements", kase, frs, ar, ar.Elements)
 		checkText(c, "analysis-text", kase, frs, ar.GetText())
+
+		// the text assembly paths of the extractor on the very fragments of the page
+		// (no reading path in between: what is lost here is lost by the assembly)
+		checkText(c, "assemble-hook", kase, frs, tabula.VerifAssembleText(cp()))
+		checkText(c, "preservelayout-hook", kase, frs, tabula.VerifExtractPreserveLayout(cp(), w))
+		checkText(c, "bycolumn-hook", kase, frs, tabula.VerifExtractByColumn(cp(), w, h))
+		checkText(c, "withparagraphs-hook", kase, frs, tabula.VerifExtractWithParagraphs(cp(), w, h))
 	})
 }
 
